@@ -39,6 +39,24 @@ import warnings  # noqa: E402
 warnings.filterwarnings('ignore')
 
 
+class CaseTimeout(BaseException):
+  pass
+
+
+def run_with_alarm(check, inp, seconds):
+  import signal
+
+  def on_alarm(signum, frame):
+    raise CaseTimeout()
+  old = signal.signal(signal.SIGALRM, on_alarm)
+  signal.alarm(seconds)
+  try:
+    return check(inp)
+  finally:
+    signal.alarm(0)
+    signal.signal(signal.SIGALRM, old)
+
+
 def main(checkers):
   try:
     import resource
@@ -68,7 +86,9 @@ def main(checkers):
       cases += 1
       distinct.add(json.dumps(inp, sort_keys=True, default=str))
       try:
-        msg = check(inp)
+        msg = run_with_alarm(check, inp, int(payload.get('case_timeout', 120)))
+      except CaseTimeout:
+        msg = f'the real code did not return within {int(payload.get("case_timeout", 120))} s on this input (non-termination)'
       except Exception as e:  # the real code raised where the contract says it must not
         msg = f'{type(e).__name__}: {e}\n' + traceback.format_exc()[-800:]
       if msg:
